@@ -844,7 +844,7 @@ def driver_filter(repo: Repo, rep):
             ok = False
             if isinstance(L, (ast.ListComp, ast.GeneratorExp)) and isinstance(L.elt, ast.Name):
                 for i in L.generators[0].ifs:
-                    if isinstance(i, ast.Compare) and len(i.ops) == 1 and isinstance(i.ops[0], ast.In) and isinstance(i.left, ast.Attribute) and i.left.attr == "flag" and isinstance(i.left.value, ast.Name) and i.left.value.id == L.elt.id and "update_flags" in norm(i.comparators[0]):
+                    if isinstance(i, ast.Compare) and len(i.ops) == 1 and isinstance(i.ops[0], ast.In) and isinstance(i.left, ast.Attribute) and i.left.attr == "flag" and isinstance(i.left.value, ast.Name) and i.left.value.id == L.elt.id and ("update_flags" in norm(i.comparators[0]) or derives_from(cfg, n, i.comparators[0], lambda x: isinstance(x, ast.Attribute) and x.attr == "update_flags")):
                         ok = True
             if ok:
                 rep.ok("R-DRIVER-FILTER", f, c, "changes filtered by change.flag in update_flags")
